@@ -113,6 +113,11 @@ type Orbit struct {
 	Src         string
 }
 
+// SharedConst whitelists stores of pointers into package-level memory into heap objects (frame analysis, C20).
+type SharedConst struct {
+	Global, Func, Reason string
+}
+
 type Pred struct {
 	Name   string
 	Params []string
@@ -132,6 +137,7 @@ type Specs struct {
 	Ghosts    map[string]int // ghost (uninterpreted) spec functions: name -> arity
 	Folds     map[string]*Fold
 	Orbits    map[string]*Orbit
+	SharedConsts []SharedConst // "sharedconst GLOBAL [in FUNC] -- reason": package-level memory that may be referenced from heap objects because it is never written
 	StructuralRecPatterns []string // "recursion structural PATTERN -- reason"
 	StructuralRecReasons  []string
 	GhostFields map[string]bool // mutable ghost state per object: heap array G.<name>, read as name(obj)
@@ -143,7 +149,7 @@ func NewSpecs() *Specs {
 
 var clauseKeywords = map[string]bool{
 	"pred": true, "func": true, "extern": true, "ghost": true, "ghostfield": true, "fold": true, "orbit": true, "iface": true, "walk": true, "requires": true, "ensures": true, "preserves": true, "loop": true,
-	"funcparam": true, "mapspec": true, "assumefacet": true, "readonly": true, "dyncall": true, "inline": true, "trusted": true, "verifybody": true, "depthguard": true, "atcalls": true, "recursion": true, "opaque": true, "noverify": true, "modifies": true, "pure": true, "arith": true, "axiom": true,
+	"funcparam": true, "mapspec": true, "assumefacet": true, "readonly": true, "dyncall": true, "inline": true, "trusted": true, "verifybody": true, "depthguard": true, "atcalls": true, "recursion": true, "sharedconst": true, "opaque": true, "noverify": true, "modifies": true, "pure": true, "arith": true, "axiom": true,
 }
 
 // LoadSpecs reads every contracts_verif.go under repo (falling back to mirror for packages lacking one).
@@ -356,6 +362,24 @@ func (S *Specs) parseFile(path string) error {
 			}
 			oname := strings.TrimSpace(rest[:op])
 			S.Orbits[oname] = &Orbit{Name: oname, S: strings.TrimSpace(ps[0]), P: strings.TrimSpace(ps[1]), Stop: se, Next: ne, Src: rest}
+			cur = nil
+		case "sharedconst":
+			head, reason := rest, ""
+			if k := strings.Index(rest, "--"); k >= 0 {
+				head, reason = strings.TrimSpace(rest[:k]), strings.TrimSpace(rest[k+2:])
+			}
+			f := strings.Fields(head)
+			sc := SharedConst{Reason: reason, Func: "*"}
+			if len(f) >= 1 {
+				sc.Global = f[0]
+			}
+			if len(f) >= 3 && f[1] == "in" {
+				sc.Func = f[2]
+			}
+			if sc.Global == "" || reason == "" {
+				return fail(fmt.Errorf("sharedconst GLOBAL [in FUNC] -- reason"))
+			}
+			S.SharedConsts = append(S.SharedConsts, sc)
 			cur = nil
 		case "recursion":
 			// recursion structural PATTERN -- reason: recursion of these functions follows a finite data structure
